@@ -140,6 +140,7 @@ class Normalizer(ast.NodeTransformer):
     def __init__(self):
         self.const_locals = [{}]     # stack: function -> {name: literal tuple}
         self.func_stack = []
+        self.for_consts = {}         # id(For node) -> literal its iterable is bound to (block-local table)
         self.count = 0
 
     # ------------------------------------------------------------------ functions: literal-bound locals
@@ -165,6 +166,35 @@ class Normalizer(ast.NodeTransformer):
                     used = {x.id for e in st.value.elts for x in ast.walk(e) if isinstance(x, ast.Name)}
                     if all(stores.get(u, 0) <= 1 for u in used):
                         consts[nm] = st.value
+        # block-local tables: `t = ((a, b), (b, a))` directly followed (same statement list, no store to the
+        # element names in between) by `for x, y in t`
+        def blocks(n):
+            for fld in ('body', 'orelse', 'finalbody'):
+                sub = getattr(n, fld, None)
+                if isinstance(sub, list) and sub and isinstance(sub[0], ast.stmt):
+                    yield sub
+            for h in getattr(n, 'handlers', []) or []:
+                yield h.body
+            for c in getattr(n, 'cases', []) or []:
+                yield c.body
+        for n in ast.walk(node):
+            if n is not node and isinstance(n, (ast.FunctionDef, ast.AsyncFunctionDef, ast.ClassDef, ast.Lambda)):
+                continue
+            for L in blocks(n):
+                for i, st in enumerate(L):
+                    if not (isinstance(st, ast.Assign) and len(st.targets) == 1 and isinstance(st.targets[0], ast.Name)
+                            and isinstance(st.value, (ast.Tuple, ast.List)) and 0 < len(st.value.elts) <= MAX_ELTS
+                            and all(_simple(e) for e in st.value.elts)):
+                        continue
+                    nm = st.targets[0].id
+                    if stores.get(nm) != 1 or nm in mutated:
+                        continue
+                    used = {x.id for e in st.value.elts for x in ast.walk(e) if isinstance(x, ast.Name)}
+                    for j in range(i + 1, len(L)):
+                        if isinstance(L[j], ast.For) and isinstance(L[j].iter, ast.Name) and L[j].iter.id == nm:
+                            self.for_consts[id(L[j])] = st.value
+                        if _assigned_names([L[j]]) & used:
+                            break
         self.const_locals.append(consts)
         self.func_stack.append(node)
         self.generic_visit(node)
@@ -178,7 +208,9 @@ class Normalizer(ast.NodeTransformer):
     # ------------------------------------------------------------------ N1
     def visit_For(self, node):
         it = node.iter
-        if isinstance(it, ast.Name) and it.id in self.const_locals[-1]:
+        if id(node) in self.for_consts:
+            it = self.for_consts[id(node)]
+        elif isinstance(it, ast.Name) and it.id in self.const_locals[-1]:
             it = self.const_locals[-1][it.id]
         elif isinstance(it, ast.Name) and it.id in self.const_locals[0] and len(self.const_locals) > 1 \
                 and it.id not in {x.id for x in ast.walk(self.func_stack[-1]) if isinstance(x, ast.Name)
@@ -555,15 +587,170 @@ def _search_loops(tree) -> int:
     return count
 
 
+# ---------------------------------------------------------------------------------------------- N11 / N12
+_PURE_CALLS = {'hasattr', 'len', 'isinstance', 'str', 'getattr', 'int', 'float', 'bool', 'type', 'id'}
+
+
+def _pure_test(e) -> bool:
+    for n in ast.walk(e):
+        if isinstance(n, ast.Call) and not (isinstance(n.func, ast.Name) and n.func.id in _PURE_CALLS):
+            return False
+        if isinstance(n, (ast.NamedExpr, ast.Await, ast.Yield, ast.YieldFrom, ast.Lambda)):
+            return False
+    return True
+
+
+def _ends_in_raise(b) -> bool:
+    return bool(b) and isinstance(b[-1], ast.Raise)
+
+
+def _same(a, b) -> bool:
+    if isinstance(a, list):
+        return isinstance(b, list) and len(a) == len(b) and all(_same(x, y) for x, y in zip(a, b))
+    return ast.dump(a) == ast.dump(b)
+
+
+def _strip_peeled(x, loop) -> bool:
+    """x is the statement right before `while C: S`.  A trailing `if C: S` on any path through x is the first
+    iteration of the loop written out (while C: S == if C: {S; while C: S}): remove it.  True when x became empty."""
+    if isinstance(x, ast.If) and not x.orelse and _same(x.test, loop.test) and _same(x.body, loop.body):
+        return True
+    if isinstance(x, ast.If):
+        for fld in ('body', 'orelse'):
+            b = getattr(x, fld)
+            if b and _strip_peeled(b[-1], loop):
+                b.pop()
+                if not b and fld == 'body':
+                    b.append(ast.copy_location(ast.Pass(), x))
+    return False
+
+
+def _raise_split_and_unpeel(tree) -> int:
+    """N11  `if C: (if A: S else: raise E)`  ->  `if C and not A: raise E` ; `if C: S`     (C, A pure tests)
+       N12  `if C: S` directly before `while C: S` (also as the tail of a branch)  ->  dropped."""
+    count = 0
+    for parent in ast.walk(tree):
+        for fld in ('body', 'orelse', 'finalbody'):
+            blk = getattr(parent, fld, None)
+            if not (isinstance(blk, list) and blk and isinstance(blk[0], ast.stmt)):
+                continue
+            i = 0
+            while i < len(blk):
+                st = blk[i]
+                if isinstance(st, ast.If) and not st.orelse and len(st.body) == 1 and isinstance(st.body[0], ast.If) \
+                        and st.body[0].orelse and _pure_test(st.test) and _pure_test(st.body[0].test):
+                    inner = st.body[0]
+                    rb, ob, neg = None, None, False
+                    if _ends_in_raise(inner.orelse) and not _ends_in_raise(inner.body) \
+                            and not any(isinstance(x, ast.If) for x in inner.orelse):
+                        rb, ob, neg = inner.orelse, inner.body, True
+                    elif _ends_in_raise(inner.body) and not _ends_in_raise(inner.orelse):
+                        rb, ob, neg = inner.body, inner.orelse, False
+                    if rb is not None:
+                        a = ast.UnaryOp(op=ast.Not(), operand=copy.deepcopy(inner.test)) if neg else copy.deepcopy(inner.test)
+                        g = ast.If(test=ast.BoolOp(op=ast.And(), values=[copy.deepcopy(st.test), a]), body=rb, orelse=[])
+                        rest = ast.If(test=st.test, body=ob, orelse=[])
+                        ast.copy_location(g, st)
+                        ast.copy_location(rest, inner)
+                        blk[i:i + 1] = [g, rest]
+                        count += 1
+                        i += 2
+                        continue
+                i += 1
+    for parent in ast.walk(tree):
+        for fld in ('body', 'orelse', 'finalbody'):
+            blk = getattr(parent, fld, None)
+            if not (isinstance(blk, list) and blk and isinstance(blk[0], ast.stmt)):
+                continue
+            i = 1
+            while i < len(blk):
+                if isinstance(blk[i], ast.While) and not blk[i].orelse:
+                    before = ast.dump(blk[i - 1])
+                    if _strip_peeled(blk[i - 1], blk[i]):
+                        del blk[i - 1]
+                        count += 1
+                        continue
+                    if ast.dump(blk[i - 1]) != before:
+                        count += 1
+                i += 1
+    return count
+
+
+
+# ---------------------------------------------------------------------------------------------- N13
+def _fold_named_constants(tree) -> int:
+    """NAME = <str / number constant> at module or class level, UPPER_CASE name, bound once and never stored to as
+    an attribute anywhere in the module  ->  loads of NAME / self.NAME / cls.NAME / Class.NAME become the constant."""
+    count = 0
+    attr_stores = {n.attr for n in ast.walk(tree) if isinstance(n, ast.Attribute) and isinstance(n.ctx, (ast.Store, ast.Del))}
+    name_stores = {}
+    for n in ast.walk(tree):
+        if isinstance(n, ast.Name) and isinstance(n.ctx, (ast.Store, ast.Del)):
+            name_stores[n.id] = name_stores.get(n.id, 0) + 1
+        if isinstance(n, ast.Global):
+            for g in n.names:
+                name_stores[g] = name_stores.get(g, 0) + 2
+
+    def consts_of(body):
+        out = {}
+        for st in body:
+            if isinstance(st, ast.Assign) and len(st.targets) == 1 and isinstance(st.targets[0], ast.Name) \
+                    and isinstance(st.value, ast.Constant) and isinstance(st.value.value, (str, int, float)) \
+                    and not isinstance(st.value.value, bool):
+                nm = st.targets[0].id
+                if nm.strip('_').isupper() and name_stores.get(nm) == 1 and nm not in attr_stores:
+                    out[nm] = st.value
+        return out
+    mod_consts = consts_of(tree.body)
+    class_consts = {c.name: consts_of(c.body) for c in tree.body if isinstance(c, ast.ClassDef)}
+
+    class Fold(ast.NodeTransformer):
+        def __init__(self, cls):
+            self.cls = cls
+
+        def visit_ClassDef(self, node):
+            old, self.cls = self.cls, node.name
+            self.generic_visit(node)
+            self.cls = old
+            return node
+
+        def visit_Name(self, node):
+            nonlocal count
+            if isinstance(node.ctx, ast.Load) and node.id in mod_consts:
+                count += 1
+                return ast.copy_location(ast.Constant(value=mod_consts[node.id].value), node)
+            return node
+
+        def visit_Attribute(self, node):
+            nonlocal count
+            self.generic_visit(node)
+            if isinstance(node.ctx, ast.Load) and isinstance(node.value, ast.Name):
+                owner = None
+                if node.value.id in ('self', 'cls') and self.cls:
+                    owner = self.cls
+                elif node.value.id in class_consts:
+                    owner = node.value.id
+                if owner and node.attr in class_consts.get(owner, {}):
+                    count += 1
+                    return ast.copy_location(ast.Constant(value=class_consts[owner][node.attr].value), node)
+            return node
+    Fold(None).visit(tree)
+    return count
+
+
+
 def normalize(tree: ast.Module, inline: bool = True) -> ast.Module:
     ninl = 0
     if inline:
         from .inline import inline_helpers
         ninl = inline_helpers(tree)
+    nfold = _fold_named_constants(tree)
     n = Normalizer()
     tree = n.visit(tree)
+    n.count += nfold
     n.count += ninl
     n.count += _search_loops(tree)
+    n.count += _raise_split_and_unpeel(tree)
     cp = _CopyProp()
     for f in [x for x in ast.walk(tree) if isinstance(x, (ast.FunctionDef, ast.AsyncFunctionDef))]:
         for _ in range(3):
